@@ -448,7 +448,7 @@ impl Report {
             if self.is_known(sig) {
                 known_hits.push(sig.clone());
                 let what = self.known.iter().find(|k| &k.signature == sig).map(|k| k.what.clone()).unwrap_or_default();
-                lines.push(format!("KNOWN-FINDING: property={} {} [{}] ({} cases)", self.property, sig, what, f.count));
+                lines.push(format!("KNOWN-FINDING: property={} {} [{}] ({} cases)", self.property, sig, clip(&what, 140), f.count));
                 continue;
             }
             if sig.starts_with("HARNESS/") {
